@@ -57,7 +57,7 @@ def tsan_races(err):
     out = []
     for blk in err.split("WARNING: ThreadSanitizer:")[1:]:
         kind = blk.split("\n", 1)[0].strip()
-        g = re.search(r"Location is global '([^']+)'", blk)
+        g = re.search(r"Location is global '([^'\[]+)", blk)
         fn = re.findall(r"#\d+ ([\w:~<>]+)[^\n]*?/src/(?:phreeqcpp/)?(?:common/)?([\w.]+):\d+", blk)[:16]
         out.append((kind, g.group(1) if g else None, fn))
     return out
@@ -111,9 +111,7 @@ def run(ctx):
     seen = set()
     for kind, glob, fn in races:
         infn = [f for f in fn if f[1] == "transport.cpp"]
-        if (glob in F3) or (glob is None and infn) or (infn and glob is None):
-            k = "F3:transport.cpp-file-scope-globals"
-        elif glob in F3:
+        if (glob in F3) or (infn and (glob is None or glob in F3)):
             k = "F3:transport.cpp-file-scope-globals"
         else:
             k = "tsan:%s:%s" % (glob or "?", fn[0][0] if fn else "?")
